@@ -455,6 +455,9 @@ func (in *Interp) fmtOperandM(v Value, verb byte, sharp bool, methods bool) ([]*
 						}
 						s := in.callFn(m, []Value{iv.v}, nil).(StrV)
 						if verb == 'q' {
+							if _, conc := concreteString(s); !conc && in.fmtLenient {
+								return nil, false
+							}
 							return in.quoteSym(s)
 						}
 						return s.b, true
@@ -479,6 +482,9 @@ func (in *Interp) fmtOperandM(v Value, verb byte, sharp bool, methods bool) ([]*
 				}
 				return s.b, true
 			case 'q':
+				if _, conc := concreteString(s); !conc && in.fmtLenient {
+					return nil, false // error texts stay opaque rather than forking on every byte
+				}
 				return in.quoteSym(s)
 			}
 		case u.Info()&types.IsFloat != 0:
